@@ -9,6 +9,8 @@ R3  collect_cvc_total_forces and collect_cvc_Jacobians use the same coefficient 
 R4  timing: calc_cvcs and collect_cvc_data run the total-force stage before the value/Jacobian stages iff the variable
     does not report same-step forces (using the previous step's Jacobian), after them otherwise -- and the two
     functions make the same choice
+R7  a component that selects one of several references by a search (arg-min) subscripts the reference array with the
+    selected index wherever it computes gradients or inverse gradients
 """
 from . import expr as X
 from . import cond as C
@@ -312,7 +314,46 @@ def r6(F, rep, rid="C07-R6"):
         rep.add(rid, "remember|%s" % sub, props.loc(), "`%s` is subtracted from ft but never assigned from the applied force" % sub, False, func=props.q)
 
 
+def r7(F, rep, rid="C07-R7"):
+    rep.rule(rid, "the inverse gradient refers to the reference the gradient used: where a component picks one of several "
+                  "references by a search and its calc_gradients() subscripts the reference array with the selected index, "
+                  "every subscript of that array in calc_gradients(), calc_force_invgrads() and apply_force() of the class "
+                  "mentions the selected index (directly or through a constant local)")
+    from .rules_c01 import search_selectors
+    n = 0
+    for fs, w, k, L in search_selectors(F):
+        sel = X.re_strip(k)
+
+        def subs(g):
+            res = X.const_locals(g)
+            out = []
+            for x in g.walk():
+                if x["k"] == "CXXOperatorCallExpr" and x.get("op") == "[]" and len(X.call_args(x)) == 2:
+                    b, i = X.call_args(x)
+                    bk = X.re_strip(X.key(b, g))
+                    if bk.startswith("this."):
+                        out.append((x, bk, X.re_strip(X.key(i, g, res))))
+            return out
+        fam = [g for g in F.funcs.values() if g.cls == fs.cls and g.body is not None]
+        grads = [g for g in fam if g.name == "calc_gradients"]
+        arrays = {bk for g in grads for x, bk, ik in subs(g) if sel in ik}
+        for arr in sorted(arrays):
+            n += 1
+            for g in sorted(fam, key=lambda g: g.q):
+                if g.name not in ("calc_gradients", "calc_force_invgrads", "apply_force"):
+                    continue
+                bad = [(x, ik) for x, bk, ik in subs(g) if bk == arr and sel not in ik]
+                rep.add(rid, "%s|%s" % (g.q, arr), g.loc(bad[0][0]) if bad else g.loc(),
+                        "%s: %s" % (g.q, ("subscripts `%s` with `%s`, without the selected index `%s`" % (arr, bad[0][1], sel)) if bad else
+                                    ("every subscript of `%s` uses the selected index `%s`" % (arr, sel))), not bad,
+                        detail="the total force is projected on another reference than the one the applied force was derived from: "
+                               "the measured force is not the inverse of the applied one when a permuted reference wins", func=g.q)
+    if n < 1:
+        raise AnalysisBroken("%s: no reference array subscripted with a searched index in calc_gradients() (rmsd atomPermutation expected)" % rid)
+
+
 def run(F, rep, tier):
+    r7(F, rep)
     r6(F, rep)
     r1(F, rep)
     r2(F, rep)
